@@ -30,6 +30,7 @@ import (
 	"strings"
 	"sync"
 	"sync/atomic"
+	"syscall"
 	"testing"
 	"time"
 
@@ -535,54 +536,72 @@ func InFlightDone() { _ = os.Remove("inflight.json") }
 
 // ---------------------------------------------------------------- watchdog
 
-// A case that runs longer than caseTimeout or drives the heap above heapLimit
-// is a failure of the code under test (hang / runaway allocation): the
-// watchdog records the case as a replay file and ends the process, which the
-// driver reports as a violation. Both limits are orders of magnitude above
-// what any legitimate case needs (cases take microseconds to milliseconds and
-// kilobytes to megabytes).
+// A case during which this process burns more than cpuLimit seconds of CPU, or
+// drives the heap above heapLimit, is a failure of the code under test (hang
+// in a loop / runaway allocation): the watchdog records the case as a replay
+// file and ends the process, which the driver reports as a violation. Both
+// limits are orders of magnitude above what any legitimate case needs (cases
+// take microseconds to milliseconds and kilobytes to megabytes). The time
+// limit is measured in CPU time of the process, not wall time: on an
+// oversubscribed or paused machine a trivial case can sit descheduled for
+// minutes of wall time (observed during the build with load average > 300),
+// and that must never raise an alarm; a case blocked without using CPU is
+// left to the driver's overall budget, which reports "inconclusive".
 var (
-	caseTimeout = 120 * time.Second
-	heapLimit   = uint64(3 << 30)
-	curCase     atomic.Pointer[watched]
-	wdOnce      sync.Once
+	cpuLimit  = 60.0 // seconds of process CPU time within one case
+	heapLimit = uint64(3 << 30)
+	curCase   atomic.Pointer[watched]
+	wdOnce    sync.Once
 )
 
 type watched struct {
-	test  string
-	c     interface{}
-	start time.Time
+	test string
+	c    interface{}
 }
 
-// SetLimits overrides the watchdog limits (call before the first Try).
+// SetLimits overrides the watchdog limits (call before the first Try):
+// timeout is CPU time of the process spent inside one case.
 func SetLimits(timeout time.Duration, heapBytes uint64) {
-	caseTimeout, heapLimit = timeout, heapBytes
+	cpuLimit, heapLimit = timeout.Seconds(), heapBytes
+}
+
+func cpuSeconds() float64 {
+	var ru syscall.Rusage
+	if err := syscall.Getrusage(syscall.RUSAGE_SELF, &ru); err != nil {
+		return 0
+	}
+	return float64(ru.Utime.Sec) + float64(ru.Utime.Usec)/1e6 + float64(ru.Stime.Sec) + float64(ru.Stime.Usec)/1e6
 }
 
 func watch(test string, c interface{}) {
 	wdOnce.Do(func() { go watchdog() })
-	curCase.Store(&watched{test, c, time.Now()})
+	curCase.Store(&watched{test, c})
 }
 
 func unwatch() { curCase.Store(nil) }
 
 func watchdog() {
 	var ms runtime.MemStats
+	var seen *watched
+	var cpu0 float64
 	tick := 0
 	for {
-		time.Sleep(50 * time.Millisecond)
+		time.Sleep(100 * time.Millisecond)
 		w := curCase.Load()
 		if w == nil {
+			seen = nil
+			continue
+		}
+		if w != seen {
+			seen, cpu0, tick = w, cpuSeconds(), 0
 			continue
 		}
 		tick++
-		if time.Since(w.start) > caseTimeout {
-			if curCase.Load() == w {
-				RecordFailure(w.test, w.c, fmt.Errorf("watchdog: the case did not return within %v (hang)", caseTimeout))
-				os.Exit(1)
-			}
+		if used := cpuSeconds() - cpu0; used > cpuLimit && curCase.Load() == w {
+			RecordFailure(w.test, w.c, fmt.Errorf("watchdog: the case did not return after %.0f s of CPU time (hang)", used))
+			os.Exit(1)
 		}
-		if tick%4 == 0 {
+		if tick%2 == 0 {
 			runtime.ReadMemStats(&ms)
 			if ms.HeapAlloc > heapLimit && curCase.Load() == w {
 				RecordFailure(w.test, w.c, fmt.Errorf("watchdog: heap grew to %d MiB while deciding this case (runaway allocation)", ms.HeapAlloc>>20))
